@@ -15,7 +15,7 @@
 
 use approx::RelativeEq;
 use monitors::prng::{mix2, Rng, H64};
-use monitors::report::{guarded, parallel, take_poison, Config, Report, Sub, Violation};
+use monitors::report::{guarded, parallel, run_cases, take_poison, Config, Report, Sub, Violation};
 use monitors::Q;
 use num_traits::real::Real;
 use num_traits::{One, Zero};
@@ -1591,6 +1591,97 @@ fn req(mut s: Sub, cfg: &Config, dim: usize, apis: &[Api], extra: &[Api]) -> Sub
     s
 }
 
+
+// ------------------------------------------------------------------ distance over the float range
+// (added after seeded change C13_N) The sampled tiers above use short dyadics of ordinary size.  Here
+// the point lies outside the box by 10^k for every k the type can hold, subnormal offsets included,
+// along one axis (off a face) or several (off an edge / corner), the box anchored at the origin or far
+// from it.  `distance_to_point` must come back finite, non-negative and equal to the distance to the
+// nearest box point within 64 eps relative + 4*sqrt(MIN_POSITIVE) absolute (squares below the smallest
+// normal number are lost: that is the type, not a defect).  Offsets whose square overflows are outside
+// the working range and are not generated.
+macro_rules! distance_range_case {
+    ($sub:expr, $cfg:expr, $idx:expr, $F:ty, $tname:expr, $kmin:expr, $kmax:expr) => {{
+        let mut rng = Rng::for_case(concat!("distance_float_range/", $tname), $cfg.case_seed(), $idx);
+        let dim3 = rng.bool();
+        let d = if dim3 { 3 } else { 2 };
+        let k = rng.range_i64($kmin, $kmax) as i32;
+        let anchor: $F = *rng.pick(&[0.0 as $F, 0.0, 1.0, -3.5, 1024.0]);
+        let mut lo = [anchor; 3];
+        let mut hi = [anchor; 3];
+        let mut p = [anchor; 3];
+        let mut off = [0.0f64; 3];
+        let naxes = 1 + rng.below(d as u64) as usize;
+        for ax in 0..d {
+            let w: $F = *rng.pick(&[0.0 as $F, 1.0, 0.5, 7.0]);
+            hi[ax] = lo[ax] + w;
+            p[ax] = lo[ax] + w / 2.0;
+        }
+        let mut axes: Vec<usize> = (0..d).collect();
+        rng.shuffle(&mut axes);
+        for &ax in axes.iter().take(naxes) {
+            let mant = 1.0 + rng.below(8) as f64 / 8.0;
+            let e = (mant * 10f64.powi(k)) as $F;
+            // the point as the type holds it; the offset the oracle uses is the one that survived the addition
+            let q = if rng.bool() { hi[ax] + e } else { lo[ax] - e };
+            p[ax] = q;
+            off[ax] = if q > hi[ax] { q as f64 - hi[ax] as f64 } else if q < lo[ax] { lo[ax] as f64 - q as f64 } else { 0.0 };
+        }
+        // hypot neither underflows nor overflows on the way
+        let truth = off[0].hypot(off[1]).hypot(off[2]);
+        let (api, r) = if dim3 {
+            let b = Aabb { min: Vec3::new(lo[0], lo[1], lo[2]), max: Vec3::new(hi[0], hi[1], hi[2]) };
+            ("Aabb::distance_to_point", guarded(|| b.distance_to_point(Vec3::new(p[0], p[1], p[2]))))
+        } else {
+            let b = Aabr { min: Vec2::new(lo[0], lo[1]), max: Vec2::new(hi[0], hi[1]) };
+            ("Aabr::distance_to_point", guarded(|| b.distance_to_point(Vec2::new(p[0], p[1]))))
+        };
+        $sub.saw(api);
+        let ctx = format!("box min {:?} max {:?}, point {:?} (outside by {:?})", &lo[..d], &hi[..d], &p[..d], &off[..d]);
+        let tol = 64.0 * <$F>::EPSILON as f64 * truth + 4.0 * (<$F>::MIN_POSITIVE as f64).sqrt();
+        let mut h = H64::new();
+        h.s($tname).u(d as u64);
+        for x in lo.iter().chain(hi.iter()).chain(p.iter()) {
+            h.f(*x as f64);
+        }
+        match r {
+            Err(e) => {
+                let v = violation(PROP, $sub, api, $tname, "panic", "distance_panics", format!("{}: distance_to_point panicked: {}", ctx, e), $cfg.case_seed(), $idx);
+                $sub.violated(v)
+            }
+            Ok(r) => {
+                let r = r as f64;
+                if !r.is_finite() || r < 0.0 {
+                    let v = violation(PROP, $sub, api, $tname, "wrong_value", "distance_not_finite", format!("{}: distance_to_point = {} for finite inputs whose distance is {:e}", ctx, r, truth), $cfg.case_seed(), $idx);
+                    $sub.violated(v)
+                } else if (r - truth).abs() > tol {
+                    let v = violation(PROP, $sub, api, $tname, "wrong_value", "not_the_distance_over_the_float_range", format!("{}: distance_to_point = {:e}, the distance to the nearest box point is {:e} (tolerance {:e})", ctx, r, truth, tol), $cfg.case_seed(), $idx);
+                    $sub.violated(v)
+                } else {
+                    $sub.sample(|| format!("{} [{}]: {} -> {:e}", api, $tname, ctx, r));
+                    $sub.held(h.get(), truth > 0.0)
+                }
+            }
+        }
+    }};
+}
+
+fn sub_distance_range(cfg: &Config, n: u64) -> Sub {
+    let proto = Sub::new(
+        "distance_float_range",
+        "f32 and f64 boxes (2-D / 3-D, degenerate or not, at the origin or away from it) and a point outside by m*10^k along 1..D axes, k over the whole range whose squares do not overflow (f32: -45..18, f64: -323..150; subnormal offsets included): distance_to_point is finite, >= 0 and the distance to the nearest box point within 64 eps relative + 4*sqrt(MIN_POSITIVE) absolute; non-trivial = the point really lies outside; distinct by hash of all coordinates",
+    )
+    .with_floor(n / 4)
+    .require(&["Aabr::distance_to_point", "Aabb::distance_to_point"]);
+    run_cases(cfg, proto, n, |s, i| {
+        if i % 2 == 0 {
+            distance_range_case!(s, cfg, i, f32, "f32", -45, 18)
+        } else {
+            distance_range_case!(s, cfg, i, f64, "f64", -323, 150)
+        }
+    })
+}
+
 fn main() {
     let cfg = Config::from_args(PROP);
     let mut rep = Report::new(cfg.clone());
@@ -1627,6 +1718,7 @@ fn main() {
     rep.push(sq);
     rep.push(sf32);
     rep.push(sf64);
+    rep.push(sub_distance_range(&cfg, cfg.n(20_000, 400_000)));
 
     // sampled: unsigned coordinates (natural-number domain; see unsigned_case)
     let nu = cfg.n(10_000, 300_000);
